@@ -863,14 +863,65 @@ def q_plugin_send_appointment(o, tier):
     if v == 'sat':
         failed.append({'description': 'an appointment acknowledgement can be accepted without the recovered signer being compared with the tower id',
                        'function': 'watchtower_plugin::net::http::send_appointment', 'schedule': [list(e) for e in oks[i]][-14:]})
+    # every completed path through the "the tower acknowledged" arm (ApiResponse::Response, variant 0) recovers the signer:
+    # nothing the tower controls (echoed locator, slots, expiry) may end the function before the signature was looked at,
+    # otherwise a wrongly signed acknowledgement is not flagged as misbehaviour
+    api_locals = {l for l, t in f.locals.items() if re.match(r'^(?:net::http::)?ApiResponse<', t.strip())}
+    for b_ in f.blocks.values():          # locals declared in inner scopes: typed by the place expression they are moved from
+        for s_ in b_.stmts:
+            m_ = re.match(r'^(_\d+) = (?:move|copy) \(.*: (?:net::http::)?ApiResponse<[^()]*\);$', s_)
+            if m_:
+                api_locals.add(m_.group(1))
+    ack_paths, stack, steps = [], [('bb0', (), {})], 0
+    while stack and api_locals:
+        bb, tr, vis = stack.pop()
+        steps += 1
+        if steps > 400000:
+            return {'verdict': 'inconclusive', 'reason': 'path explosion'}
+        if vis.get(bb, 0) >= 2:
+            continue
+        vis = dict(vis)
+        vis[bb] = vis.get(bb, 0) + 1
+        b = f.blocks[bb]
+        disc = {}
+        for s_ in b.stmts:
+            m = re.match(r'^(_\d+) = discriminant\((_\d+)\);$', s_)
+            if m and m.group(2) in api_locals:
+                disc[m.group(1)] = m.group(2)
+            if re.match(r'^_0 = (?:std::task::)?Poll::<.*>::Pending;$', s_):
+                tr = tr + (('pending',),)
+        t = b.term
+        if t['kind'] == 'call':
+            if re.search(r'(?:^|::)recover_pk$', t['callee']):
+                tr = tr + (('recover',),)
+            if t['next']:
+                stack.append((t['next'], tr, vis))
+        elif t['kind'] == 'switch':
+            op = t['operand'].strip().split()[-1]
+            for v_, tg in t['targets']:
+                stack.append((tg, tr + ((('api', v_),) if op in disc else ()), vis))
+        elif t['kind'] in ('goto', 'drop', 'assert', 'yield'):
+            stack.append((t['next'], tr, vis))
+        elif t['kind'] == 'return':
+            ack_paths.append(tr)
+    ack_paths = sorted({p_ for p_ in ack_paths if ('api', '0') in p_ and ('pending',) not in p_})
+    queries = 1
+    if not api_locals or not ack_paths or not any(('recover',) in p_ for p_ in ack_paths):
+        return {'verdict': 'inconclusive', 'reason': 'vacuous: acknowledgement arm not found (%d locals, %d paths)' % (len(api_locals), len(ack_paths))}
+    v2, i2, dt2, out2 = _exists(ack_paths, lambda p_: ('recover',) not in p_, 'ack')
+    queries += 1
+    dt += dt2
+    if v2 == 'sat':
+        failed.append({'description': 'an acknowledgement of the tower can end send_appointment before the signer of its signature was recovered: a wrongly signed acknowledgement is not flagged as misbehaviour',
+                       'function': 'watchtower_plugin::net::http::send_appointment', 'schedule': [list(e) for e in ack_paths[i2]]})
     # F12 witness: Result<PublicKey, _>::unwrap applied to the result of recover_pk
     unwraps = [b for b in f.blocks.values() if b.term['kind'] == 'call' and re.search(r'Result::<(?:bitcoin::secp256k1::)?PublicKey, .*>::unwrap$', b.term['callee'])]
     rec = [b for b in f.blocks.values() if b.term['kind'] == 'call' and re.search(r'(?:^|::)recover_pk$', b.term['callee'])]
     if rec and unwraps and any(u.term['args'] and u.term['args'][0].split()[-1] == r_.term['dest'] for u in unwraps for r_ in rec):
         failed.append({'description': 'the key recovered from the tower-supplied signature is unwrap()ed: a signature that does not decode panics the client',
                        'function': 'watchtower_plugin::net::http::send_appointment', 'schedule': ['tower replies 200 with a signature string that is not valid zbase32 / not a recoverable signature', 'cryptography::recover_pk -> Err', 'Result::unwrap panics']})
-    return {'verdict': 'fails' if failed else 'holds', 'failed': failed, 'queries': 1, 'solver_s': dt,
-            'witness': {'ok_paths': len(oks), 'paths': len(rows), 'sample': [list(e) for e in oks[0] if e[0] in ('branch', 'mk')]},
+    return {'verdict': 'fails' if failed else 'holds', 'failed': failed, 'queries': queries, 'solver_s': dt,
+            'witness': {'ok_paths': len(oks), 'paths': len(rows), 'acknowledgement_paths': len(ack_paths), 'sample': [list(e) for e in oks[0] if e[0] in ('branch', 'mk')]},
             'functions': ['watchtower_plugin::net::http::send_appointment']}
 
 
@@ -1753,6 +1804,79 @@ def q_monitor_polls_always(o, tier):
             'functions': ['teos::chain_monitor::ChainMonitor::monitor_chain']}
 
 
+def q_retain_rule(o, tier):
+    """C13.M8: the `retain` closure of RetryManager::manage_retry. A retrier is kept by the manager only if it is ready to be
+    (re)started (should_start: stopped with pending data), running, or idle; a Failed or finished retrier is dropped, so that
+    a later `retrytower` or revocation creates a fresh one. Query: exists a path of the closure that can return true without
+    the true edge of one of the three predicates (kept for another reason: a dead entry then swallows every later message
+    for its tower), or a path that does not call remove_if_failed first."""
+    funcs, idx, t_mir, err = load_mir('watchtower-plugin', 'lib')
+    if funcs is None:
+        return {'verdict': 'inconclusive', 'reason': 'MIR dump failed'}
+    cand = [n for n in funcs if re.match(r'^retrier::<impl at .*?>::manage_retry::\{closure#0\}::\{closure#\d+\}$', n)
+            and funcs[n].header.rstrip().endswith('-> bool {')]
+    if len(cand) != 1:
+        return {'verdict': 'inconclusive', 'reason': 'retain closure not found (%d candidates)' % len(cand)}
+    f = funcs[cand[0]]
+    ALLOWED = ('Retrier::should_start', 'Retrier::is_running', 'Retrier::is_idle')
+    paths, stack = [], [(min(f.blocks), (), None, {})]
+    while stack:
+        bb, tr, lastcall, vis = stack.pop()
+        if vis.get(bb, 0) >= 1:
+            continue
+        vis = dict(vis)
+        vis[bb] = 1
+        b = f.blocks[bb]
+        for s_ in b.stmts:
+            m = re.match(r'^_0 = const (true|false);$', s_)
+            if m:
+                tr = tr + (('ret', m.group(1)),)
+        t = b.term
+        if t['kind'] == 'call':
+            cs = call_short(t['callee'])
+            tr = tr + (('call', cs),)
+            if t['dest'] == '_0':
+                tr = tr + (('ret', 'call:' + cs),)
+            if t['next']:
+                stack.append((t['next'], tr, (cs, t['dest']), vis))
+        elif t['kind'] == 'switch':
+            op = t['operand'].strip().split()[-1]
+            for v_, tg in t['targets']:
+                tr2 = tr + ((('branch', lastcall[0], v_ != '0'),) if lastcall and lastcall[1] == op else ())
+                stack.append((tg, tr2, None, vis))
+        elif t['kind'] in ('goto', 'drop', 'assert'):
+            stack.append((t['next'], tr, lastcall, vis))
+        elif t['kind'] == 'return':
+            paths.append(tr)
+    paths = sorted(set(paths))
+    if not paths or not any(e[0] == 'ret' for p_ in paths for e in p_):
+        return {'verdict': 'inconclusive', 'reason': 'vacuous: %d paths, no return value found' % len(paths)}
+
+    def may_keep(p_):
+        r = [e[1] for e in p_ if e[0] == 'ret']
+        return bool(r) and r[-1] != 'false'
+
+    def justified(p_):
+        r = [e[1] for e in p_ if e[0] == 'ret'][-1]
+        if r.startswith('call:'):
+            return r[5:] in ALLOWED
+        return any(e[0] == 'branch' and e[1] in ALLOWED and e[2] for e in p_)
+    v, i, dt, out = _exists(paths, lambda p_: may_keep(p_) and not justified(p_), 'retain')
+    if v == 'inconclusive':
+        return {'verdict': 'inconclusive', 'reason': out[:200]}
+    failed = []
+    if v == 'sat':
+        failed.append({'description': 'the retry manager can keep a retrier that is neither ready to start, running nor idle (e.g. a failed one that still holds locators): later retries and revocations for that tower go to a dead entry',
+                       'function': 'RetryManager::manage_retry (retain)', 'schedule': [list(map(str, e)) for e in paths[i]]})
+    v2, i2, dt2, out2 = _exists(paths, lambda p_: not any(e == ('call', 'Retrier::remove_if_failed') for e in p_), 'cleanup')
+    if v2 == 'sat':
+        failed.append({'description': 'a retrier can be examined by the manager without remove_if_failed having been called (the client keeps showing a retrier that has failed)',
+                       'function': 'RetryManager::manage_retry (retain)', 'schedule': [list(map(str, e)) for e in paths[i2]]})
+    return {'verdict': 'fails' if failed else 'holds', 'failed': failed, 'queries': 2, 'solver_s': dt + dt2,
+            'witness': {'paths': len(paths), 'keeping_paths': sum(1 for p_ in paths if may_keep(p_))},
+            'functions': ['watchtower_plugin::retrier::RetryManager::manage_retry::{retain closure}']}
+
+
 def q_retry_data_kept(o, tier):
     """C13.M5: RetryManager::manage_retry, one received message (tower_id, data). Every path from the reception back to the
     next reception either (a) finds the tower abandoned (contains_key false), (b) hands the data to
@@ -2196,6 +2320,7 @@ QUERIES = {
     'retrier_start_status': q_retrier_start_status,
     'registration_extends': q_registration_extends,
     'monitor_polls_always': q_monitor_polls_always,
+    'retain_rule': q_retain_rule,
 }
 
 
